@@ -132,7 +132,9 @@ RBodies == << <<1, 2, 1>>, <<1, 1, 2>>, <<1, 2, 2>>, <<1, 1, 1>> >>
 RBody(b) == IF b = 1 THEN <<D1("color", "red", 1, FALSE)>> ELSE <<D1("color", "blue", 1, FALSE)>>
 \* choice = <<"rseq", w1, w2, w3, selectors, bodies>>
 RSeqSheet(ch) == [i \in 1..3 |-> RuleItem(RWraps[ch[1 + i]] \o <<PSel(RSels[ch[5]][i])>>, RBody(RBodies[ch[6]][i]))]
-WRel(a, b) == IF a = b THEN "eq" ELSE IF IsProperPrefix(a, b) THEN "in" ELSE IF IsProperPrefix(b, a) THEN "out" ELSE "other"
+\* b opens inside a ("in", from the top level "in0"), b has left wrappers of a ("out", down to the top level "out0")
+WRel(a, b) == IF a = b THEN "eq" ELSE IF IsProperPrefix(a, b) THEN (IF a = <<>> THEN "in0" ELSE "in")
+              ELSE IF IsProperPrefix(b, a) THEN (IF b = <<>> THEN "out0" ELSE "out") ELSE "other"
 HasDup(w) == \E i \in 1..(Len(w) - 1) : w[i] = w[i + 1]
 RSeqLabels(ch) ==
   LET a == RWraps[ch[2]] b == RWraps[ch[3]] c == RWraps[ch[4]] IN
